@@ -11,6 +11,7 @@ import MidoModel.Socket
 import MidoModel.MsgObj
 import MidoModel.Heap
 import MidoModel.Strings
+import MidoModel.PortsConc
 /- Text protocol helpers for the driver: parsing requests, printing canonical results. -/
 namespace Mido
 
@@ -282,6 +283,22 @@ def HOut.show : HOut → String
 
 def StreamOut.show : StreamOut → String
   | .msg m => "msg " ++ m.show | .error n => s!"error {n}" | .abort e => "abort " ++ e.name
+
+/-! concurrent programs: `progs=p,s5/s6,p q=1,2 sched=0,1,1,0` -/
+def parseCall (s : String) : Option Conc.Call :=
+  if s == "p" then some .poll else if s.startsWith "s" then (parseNat? (s.drop 1).toString).map .send else none
+
+def runConc (ts : List String) : String :=
+  let kv := parseKVs ts
+  let g := kvGet kv
+  let progs := if g "progs" == "-" then [] else ((g "progs").splitOn "/").map (fun p => (splitComma p).filterMap parseCall)
+  let q := if g "q" == "-" then [] else (splitComma (g "q")).filterMap parseNat?
+  let sched := if g "sched" == "-" then [] else (splitComma (g "sched")).filterMap parseNat?
+  let w := Conc.run (Conc.init progs q) sched
+  let showGot (l : List (Option Nat)) := commaList (l.map (fun o => match o with | some m => toString m | none => "-"))
+  let ths := (List.range progs.length).map (fun i => s!"{showGot (w.th i).got}:{if (w.th i).pc == Conc.Pc.done then "done" else "live"}")
+  s!"fault={if w.fault then 1 else 0} q={commaList (w.q.map toString)} sent={commaList (w.sent.map toString)} recv={commaList (w.recv.map toString)} | " ++
+    " | ".intercalate ths
 
 /-- run-length compression `x*n` of equal neighbours, joined by `;` -/
 def rle (xs : List String) : String :=
